@@ -33,6 +33,39 @@ CHECKS = {
  "C14": ("runtime monitor: per-part reference decoding of split results (each part decoded on its own), concatenation compared with the original",
          "Exploration: multi-part texts with escape pairs / surrogate pairs / 2- and 4-octet GB18030 characters started at every offset -3..+3 of every part boundary, every multi-unit coding and entry point; each part is decoded alone by the reference decoder. Eight open known findings (generic splitter cuts blindly for UCS-2, GB18030, unpacked GSM-7); packed GSM-7 holds.",
          "Trusted: reference decoders; GB18030 per-part decoding = library decoder + re-encode check.", "DESIGN.md §5 C14, §6 #14"),
+ "C09": ("runtime monitor: reference-winner oracle + determinism monitor (shuffled order, duplicates, GOMAXPROCS changes, Yield-hook delays; byte comparison), concurrent stage under the Go race detector; comparator laws enumerated",
+         "Exploration: requests (protocol, content around part-count thresholds, non-empty candidate subsets plus invalid numbers, origin coding) judged against min over (parts, documented priority) and repeated 8x (thorough 32x) under perturbation for byte-identical results; the comparator is enumerated over all (coding, parts 1..4) pairs and triples for strict-total-order laws; a -race stage runs Build's goroutines with injected yields.",
+         "Trusted: priority ranks transcribed from code comments; a candidate's part count is taken from the library's single-coding entry point (declared exception, DESIGN 5 C09).", "DESIGN.md §5 C09"),
+ "C10": ("runtime monitor: pairing-table oracle from the specifications (response type, sequence words, command id) + dispatcher consistency oracle over encoded images and enumerated command ids",
+         "Exploration, exhaustive over the defined command ids: every request/response type x boundary/random sequence numbers (SGIP all three words) x three SMPP bind flavours; each dispatcher on the reference image of every type, on every command id of the const blocks and response-bit twins, and on random ids; constructors and New*Bytes helpers.",
+         "Trusted: response table in spec/wire_tables.json; SGIP 1.2 §3.4 (all three sequence words repeated).", "DESIGN.md §5 C10, §7"),
+ "C11": ("runtime monitor: relay oracle IDecode(b) -> IEncode -> IDecode compared field-wise; canonical images compared bit-for-bit (optional parameters as a set)",
+         "Exploration: canonical images of generated values and reference images mutated to stay parseable (junk after NULs, odd length words, trailing garbage, duplicate tags, 65531..65535-octet optional values, extreme numerics); every accepted input must re-encode and re-decode to the same PDU; a run with fewer than half of the mutated inputs accepted is inconclusive.",
+         "Trusted: reflection extraction; CMPP 2.0 submit 0/0 -> 1/1 normalisation applied once.", "DESIGN.md §5 C11"),
+ "C12": ("runtime monitor: result ledger (live object + deep snapshot re-checked after every later operation) with input scribbling, Poison hook on pooled buffers, pool-ownership monitor; 4-goroutine variant under the Go race detector",
+         "Exploration over histories: 1..1000 mixed operations (encode, decode from a scribbled buffer, dispatcher+String, zero-copy frame extraction then refill, split, batch, option containers, text codecs); after each operation the last 64 results are compared with their snapshots; pooled buffers are poisoned at release so a result backed by pooled memory fails at once.",
+         "Trusted: the hook call sites (Writer.Release, Utf8ToUcs2Pooled); Reader.Bytes()/Codec.Decode views are documented views and not monitored themselves.", "DESIGN.md §5 C12, §3.2"),
+ "C13": ("Go race detector over a multi-goroutine mixed workload (handler not installed) + sequential-equivalence oracle + pool-ownership monitor with Yield-hook schedule perturbation",
+         "Sampled schedules: 2..64 goroutines each running its own op list on its own values, worker processes with GOMAXPROCS 1..16; (1) every result equals the same list run alone, (2) zero deduplicated race reports with a library or pool frame in configuration A, (3) ownership monitor silent and >= 2 distinct interleaving fingerprints in configuration B. 'No race observed in N executions', not race freedom.",
+         "Trusted: the Go race detector; bytebufferpool/sync.Pool implementations.", "DESIGN.md §5 C13, §3.4"),
+ "C15": ("runtime monitor: independent MD5 formula from the CMPP/SMGP documents vs library generators, end-to-end verification after encode -> decode, targeted stream of digests containing 0x00",
+         "Exploration: accounts, secrets, timestamps, status codes (boundaries and random) for CMPP 2.0, CMPP 3.0 and SMGP 3.0; a targeted stage keeps only credential sets whose digest has 0x00 first / inside / last (tens of thousands per quick run); the peer's recomputation from decoded fields must equal the decoded authenticator. One open known finding (LoginResp trailing 0x00).",
+         "Trusted: crypto/md5; formula text in spec/extracted.", "DESIGN.md §5 C15"),
+ "C16": ("runtime monitor: reference triplet emitter / strict parser as oracle for both containers and both parsers of each; no-fabrication check on arbitrary byte strings; boundary lengths; step budget",
+         "Exploration: parameter sets (0..32, tags 0..65535, lengths incl. 65531/65535) round-tripped through Bytes/Serialize and all four parsers; well-formed sequences with duplicates for parser agreement; damaged and random byte strings for the no-fabrication clause; value lengths 65529..65540 and 69990..70000 enumerated; Add on nil/empty containers and TP_udhi on short values. One open known finding (Add on a nil Options).",
+         "Trusted: the 20-line strict walk.", "DESIGN.md §5 C16"),
+ "C17": ("runtime monitor: bit-layout reference (shifts from the CMPP text) + round-trip oracles, every field enumerated over its full range",
+         "Exhaustive per field (gateway: all 2^22 values) x three backgrounds, plus random tuples, boundary bit patterns and random 64-bit ids: CombineMsgID against the reference layout, Split(Combine)=id, Combine(Split)=id, decimal string form 22 digits and parse-back.",
+         "Trusted: the shift table transcribed from CMPP §8.3.", "DESIGN.md §5 C17"),
+ "C18": ("runtime monitor: constructive oracle — receipts built from a (key,value) list so the expected extraction is known by construction; CMPP status body via the reference layout",
+         "Exploration: all 2^8 key subsets in PRNG permutations, both SMGP spellings (primary, alternative, mixed), values without key tokens but with bare key names, SMGP ids over all octets; every field compared with its expected value (SMGP: cut to the specified width, id in hex).",
+         "Trusted: field widths from SMGP 3.0.3 §6.2.63.", "DESIGN.md §5 C18"),
+ "C19": ("runtime monitor: arithmetic oracle on the produced 16-character SMPP time, `now` passed explicitly (no wall clock)",
+         "Exploration: unit boundaries +-1 s up to 100 years in both forms, negative/unparsable strings, random durations in every ParseDuration syntax, `now` at leap day, century end, non-UTC zone and random instants 2000..2099; relative: DD*86400+hh*3600+mm*60+ss == floor(d) or an error; absolute: UTC(now+d).",
+         "Trusted: package time.", "DESIGN.md §5 C19"),
+ "C20": ("runtime monitor: shadow model of packet.Writer/Reader compared after every primitive operation, failure injected at every position",
+         "Exploration over histories: write sequences 0..200 over all eight primitives with an oversize fixed string injected at PRNG-chosen positions; after every op Written/Len/Bytes/BytesWithLength/Error are compared with the model; mirrored read sequences over full and truncated images check inverse-ness, sticky first error and zero values after failure.",
+         "Trusted: the 60-line model.", "DESIGN.md §5 C20"),
 }
 NOT_APPLICABLE = {}
 
